@@ -11,6 +11,10 @@ func (m *Machine) lenOf(v Value) int {
 	switch x := v.(type) {
 	case string:
 		return len(x)
+	case T:
+		if d, ok := m.degradeNumeral(x); ok {
+			return len(d)
+		}
 	case Slice:
 		return x.Len
 	case Array:
